@@ -19,7 +19,8 @@ Inductive op (A : Type) : Type :=
 | AddRowItems (xs : list A)           (* t.AddRowItems(xs...) *)
 | AddSeparator                        (* t.AddSeparator() *)
 | AddHeaders (xs : list A)            (* t.AddHeaders(xs...) *)
-| MutateAllRowsCopy.                  (* rr := t.AllRows(); reverse rr; rr[k] = nil; rr = rr[:0] *)
+| MutateAllRowsCopy                   (* rr := t.AllRows(); reverse rr; rr[k] = nil; rr = rr[:0] *)
+| OtherAddRow (ref : rref) (k : nat). (* other.AddRow(row) on ANOTHER table, where the row becomes row k *)
 Arguments NewRow {A} r.
 Arguments NewRowSizedFor {A} r.
 Arguments AppendNewRow {A} r.
@@ -29,6 +30,7 @@ Arguments AddRowItems {A} xs.
 Arguments AddSeparator {A}.
 Arguments AddHeaders {A} xs.
 Arguments MutateAllRowsCopy {A}.
+Arguments OtherAddRow {A} ref k.
 
 (* ---- association lists keyed by nat; the first binding wins *)
 Fixpoint assoc {B} (k : nat) (l : list (nat * B)) : option B :=
